@@ -715,6 +715,16 @@ pub fn process<I: BufRead, O: Write>(
                                     }
                                 }
 
+                                // A file that includes itself, directly or not, would recurse until the stack overflows
+                                if context.includes_stack.len() >= 64 {
+                                    return Err(Error::Syntax {
+                                        filename: filename.clone(),
+                                        included_in: included_in.clone(),
+                                        line,
+                                        msg: format!("Too many nested includes ({fname})"),
+                                    });
+                                }
+
                                 // Process file
                                 let f = File::open(path)?;
                                 let assembler = fname.ends_with(".inc")
